@@ -565,6 +565,32 @@ static mat3x4 genAxisAligned(vh::Rng& r, bool exact) {
   return m;
 }
 
+// A leaf set whose radix tree is as DEEP as the construction allows: one pair
+// of codes per Morton bit (2^b, 2^b+1) forms a ladder on which both children
+// are internal at every level, and a long run of identical codes at the bottom
+// adds log2(run) index-tie-break levels (up to 30 + 32 in principle). Every
+// box contains the origin, so a covering query keeps one pending stack entry
+// per level of the traversal.
+static void makeDeep(vh::Rng& r, ColCase& cc, int n) {
+  static const int runs[] = {2, 33, 64, 130, 700, 3000, 9000};
+  int run = std::max(2, std::min(runs[r.below(7)], n - 60));
+  std::vector<uint32_t> code;
+  const uint32_t mask = r.chance(0.5) ? 0u : ((uint32_t)r.next() & 0x3FFFFFFFu);
+  for (int i = 0; i < run; i++) code.push_back(0u ^ mask);
+  for (int b = 1; b < 30; b++) {
+    code.push_back((1u << b) ^ mask);
+    code.push_back(((1u << b) | 1u) ^ mask);
+  }
+  while ((int)code.size() < n) code.push_back((uint32_t)r.next() & 0x3FFFFFFFu);
+  code.resize(n);
+  std::sort(code.begin(), code.end());
+  cc.codes = code;
+  cc.leaves.resize(n);
+  for (auto& b : cc.leaves) b = mkBox(vec3(-r.uni(0.01, 1), -r.uni(0.01, 1), -r.uni(0.01, 1)), vec3(r.uni(0.01, 1), r.uni(0.01, 1), r.uni(0.01, 1)));
+  cc.style = "all-contain-origin";
+  cc.mstyle = "deep-ladder";
+}
+
 static void colliderCase(vh::Rng& r, vh::Ctx& c) {
   const long maxLeaves = c.iparam("maxLeaves", 2000);
   const long minLeaves = c.iparam("minLeaves", 2);
@@ -580,6 +606,13 @@ static void colliderCase(vh::Rng& r, vh::Ctx& c) {
   int styleId, mstyleId;
   genLeaves(r, n, cc, styleId);
   genCodes(r, cc, mstyleId);
+  const bool deep = n >= 62 && r.chance(0.12);
+  if (deep) {
+    makeDeep(r, cc, n);
+    styleId = 90;
+    mstyleId = 90;
+    c.count("deep_ladder_colliders");
+  }
   int distinct = 1;
   for (int i = 1; i < n; i++) distinct += cc.codes[i] != cc.codes[i - 1];
 
@@ -590,6 +623,10 @@ static void colliderCase(vh::Rng& r, vh::Ctx& c) {
   std::vector<vec3> qp;
   genQueries(r, cc.leaves, nq, qb, qp);
   if (r.chance(0.2)) qb[r.below(nq)] = Box();  // the documented "empty" query box (early exit)
+  if (deep) {  // queries that overlap every leaf: the traversal must descend everywhere
+    qb[0] = mkBox(vec3(-2.0), vec3(2.0));
+    qp[0] = vec3(0.0);
+  }
 
   c.site("Collider::Collider");
   Vec<Box> lb(cc.leaves);
